@@ -4,5 +4,5 @@
 import sys
 sys.path[:0] = ['/repo' + "/pulser-core", '/repo' + "/pulser-simulation", "/verif"]
 from symx.replay import replay
-sys.exit(replay(check='checks.c17', kernel='config', shape={'obs': ['fidelity', 'fidelity', 'expectation', 'expectation'], 'times': [True, False, False, True], 'suffix': True},
-                assignment={'o0_t0': '0/1', 'o0_t1': '1/1024', 'o3_t0': '0/1', 'o3_t1': '1/1024'}, label='k3:config_roundtrip_completes'))
+sys.exit(replay(check='checks.c17', kernel='config', shape={'obs': ['bitstrings'], 'times': [True], 'noise': 'eff'},
+                assignment={'o0_t0': '0/1', 'o0_t1': '1/2', 'eff_rate': '1152921504606847/1152921504606846976'}, label='k3:config_roundtrip_completes'))
